@@ -198,8 +198,13 @@ func (e *Engine) rangeIter(x Value, t types.Type) Value {
 		for i := range it.order {
 			it.order[i] = i
 		}
-		if e.mapOrder && n >= 2 {
-			e.permute(it.order)
+		// nondeterministic iteration order: at most one map range per path deviates from
+		// insertion order (every range is a candidate)
+		if e.mapOrder && n >= 2 && e.hostState["permuted"] == nil {
+			if e.chooseFree(2) == 1 {
+				e.hostState["permuted"] = true
+				e.permute(it.order)
+			}
 		}
 		return it
 	case string, *SymStr:
@@ -208,29 +213,21 @@ func (e *Engine) rangeIter(x Value, t types.Type) Value {
 	panic(fmt.Sprintf("range over %T", x))
 }
 
-// permute applies a solver-independent nondeterministic choice of iteration order:
-// all permutations for n<=4, otherwise identity or one transposition.
+// permute deviates from insertion order: all non-identity permutations for n<=4,
+// otherwise all single transpositions.
 func (e *Engine) permute(order []int) {
 	n := len(order)
-	tt := e.ctx.True
 	if n <= 4 {
-		// Lehmer code: choose position for each element
-		for i := 0; i < n-1; i++ {
-			alts := make([]*smt.Term, n-i)
-			for k := range alts {
-				alts[k] = tt
-			}
-			j := i + e.chooseFree(n-i)
-			order[i], order[j] = order[j], order[i]
+		perms := permutations(n)
+		k := 1 + e.chooseFree(len(perms)-1) // skip identity (index 0)
+		p := perms[k]
+		cp := append([]int{}, order...)
+		for i := range order {
+			order[i] = cp[p[i]]
 		}
 		return
 	}
-	// identity + all transpositions
-	k := e.chooseFree(1 + n*(n-1)/2)
-	if k == 0 {
-		return
-	}
-	k--
+	k := e.chooseFree(n * (n - 1) / 2)
 	for i := 0; i < n; i++ {
 		for j := i + 1; j < n; j++ {
 			if k == 0 {
@@ -240,6 +237,26 @@ func (e *Engine) permute(order []int) {
 			k--
 		}
 	}
+}
+
+func permutations(n int) [][]int {
+	var out [][]int
+	var rec func(cur []int, used []bool)
+	rec = func(cur []int, used []bool) {
+		if len(cur) == n {
+			out = append(out, append([]int{}, cur...))
+			return
+		}
+		for i := 0; i < n; i++ {
+			if !used[i] {
+				used[i] = true
+				rec(append(cur, i), used)
+				used[i] = false
+			}
+		}
+	}
+	rec(nil, make([]bool, n))
+	return out
 }
 
 // chooseFree forks n ways without any constraint (environment nondeterminism).
@@ -269,8 +286,7 @@ func (e *Engine) iterNext(it Value, in *ssa.Next) Value {
 	switch x := it.(type) {
 	case *mapIter:
 		if x.pos >= len(x.order) {
-			tt := in.Type().(*types.Tuple)
-			return tuple{false, e.zero(tt.At(1).Type()), e.zero(tt.At(2).Type())}
+			return tuple{false, nil, nil}
 		}
 		en := x.entries[x.order[x.pos]]
 		x.pos++
